@@ -60,6 +60,9 @@ func Lawful(n *Node, before, after *Val) (inserted int, err error) {
 			if err != nil {
 				return 0, fmt.Errorf("/%s: inserted value is not the declared default %s: %w", k, dv.JSON(), err)
 			}
+			if cerr := Completed(sk, after.O[k]); cerr != nil {
+				return 0, fmt.Errorf("/%s: inserted default %s is not recursively completed: %w", k, after.O[k].JSON(), cerr)
+			}
 			inserted += 1 + m
 			continue
 		}
@@ -74,6 +77,38 @@ func Lawful(n *Node, before, after *Val) (inserted int, err error) {
 		inserted += m
 	}
 	return inserted, nil
+}
+
+// Completed reports whether v, a value ApplyDefaults inserted for node n, carries every nested
+// default it is to be "recursively completed" with: each property of n that declares a default,
+// is not required and whose subschema is reached through v.
+func Completed(n *Node, v *Val) error {
+	if n == nil || n.IsBool || v.K != Obj {
+		return nil
+	}
+	req := map[string]bool{}
+	if r, ok := n.KW["required"].([]any); ok {
+		for _, x := range r {
+			if s, ok := x.(string); ok {
+				req[s] = true
+			}
+		}
+	}
+	for q, sq := range n.SubMap["properties"] {
+		if sq == nil || sq.IsBool {
+			continue
+		}
+		if cur, present := v.O[q]; present {
+			if err := Completed(sq, cur); err != nil {
+				return fmt.Errorf("/%s: %w", q, err)
+			}
+			continue
+		}
+		if _, has := sq.KW["default"]; has && !req[q] {
+			return fmt.Errorf("nested default of %q is missing", q)
+		}
+	}
+	return nil
 }
 
 // DefaultsValid reports whether every "default" in the document validates
